@@ -14,9 +14,9 @@ pub(crate) fn mk(reader: Reader, cip: u64) -> DirectoryPack {
         magic: PackKind::Directory, app_vendor_id: VendorId::from([0u8; 4]), major_version: 0, minor_version: 2,
         uuid: uuid::Uuid::from_bytes([1u8; 16]), flags: 0, file_size: Size::new(cip + 37 + 64), check_info_pos: Offset::new(cip) };
     let header = DirectoryPackHeader::new(PackFreeData::from([0u8; 24]), (IndexCount::from(0), Offset::zero()), (ValueStoreCount::from(0), Offset::zero()), (EntryStoreCount::from(0), Offset::zero()));
-    let a = ArrayReader::new_memory_from_reader(&reader, Offset::zero(), Count::from(0u8)).unwrap();
-    let b = ArrayReader::new_memory_from_reader(&reader, Offset::zero(), Count::from(0u32)).unwrap();
-    let c = ArrayReader::new_memory_from_reader(&reader, Offset::zero(), Count::from(0u32)).unwrap();
+    let a = ArrayReader::new_memory_from_reader(&reader, Offset::new(60), Count::from(0u8)).unwrap();
+    let b = ArrayReader::new_memory_from_reader(&reader, Offset::new(60), Count::from(0u32)).unwrap();
+    let c = ArrayReader::new_memory_from_reader(&reader, Offset::new(60), Count::from(0u32)).unwrap();
     DirectoryPack { pack_header, header, value_stores_ptrs: a, entry_stores_ptrs: b, index_ptrs: c, reader, check_info: RwLock::new(None) }
 }
 
